@@ -233,7 +233,26 @@ def operand_checks(ctx) -> None:
     ar_init = prog.func(f'{SERIES}:Arithmetic.__init__')
     text = core.src(ar_init.node)
     ctx.check('not all(' in text and 'Numeric.match(o.kind)' in text and 'GrammarError' in text, 'C07.operands', ar_init, 'arithmetic operands must be numeric', ar_init.node, key='Arithmetic.__init__')
+    # validators run for *every* operand: never inside a short-circuiting construct (all()/any() stop at the first falsy/truthy
+    # value - and an Equal predicate is falsy unless its operands are identical; `and`/`or` likewise)
+    nv = 0
+    for vfn in prog.functions([m for m in prog.modules if m.startswith('forml.io.dsl._struct')]):
+        for c in core.calls_in(vfn.node, deep=False):
+            if isinstance(c.func, ast.Attribute) and c.func.attr in ('ensure_is', 'ensure_in', 'ensure_notin'):
+                nv += 1
+                lazy = None
+                for a in core.ancestors(c):
+                    if a is vfn.node:
+                        break
+                    if isinstance(a, ast.Call) and core.call_name(a) in ('all', 'any') and a.args and isinstance(a.args[0], (ast.GeneratorExp, ast.ListComp)) and (a.args[0].elt is c or any(c is x for x in ast.walk(a.args[0].elt))):
+                        lazy = a
+                    if isinstance(a, ast.BoolOp) and any(c is x for v in a.values[1:] for x in ast.walk(v)):
+                        lazy = a
+                ctx.check(lazy is None, 'C07.operands', vfn, f'`{core.src(c)[:50]}` validates unconditionally (found inside the short-circuiting `{core.src(lazy)[:60] if lazy is not None else ""}`)', c)
+    ctx.floor('C07.validator-calls', nv, 10)
     lg_init = prog.func(f'{SERIES}:Logical.__init__')
+    lf = [x for x in lg_init.body if isinstance(x, ast.For)]
+    ctx.check(len(lf) == 1 and core.src(lf[0].iter) == 'operands' and [core.src(b) for b in lf[0].body] == [f'Predicate.ensure_is({core.src(lf[0].target)})'], 'C07.operands', lg_init, 'every logical operand is checked to be a predicate', lg_init.node, key='Logical.__init__:each')
     ctx.check('Predicate.ensure_is(arg)' in core.src(lg_init.node), 'C07.operands', lg_init, 'logical operands must be predicates', lg_init.node, key='Logical.__init__')
 
 
